@@ -23,6 +23,7 @@ MUTANTS = {
  'm16_bibdata_sorted_set': ('pybtex/__init__.py', "for filename in aux_data.data]", "for filename in sorted(set(aux_data.data))]"),
  'm17_bst_script_cache_by_name': ('pybtex/bibtex/__init__.py', "        bst_script = bst.parse_file(bst_filename, bst_encoding)\n", "        if (style, bst_encoding) not in _BST_CACHE:\n            _BST_CACHE[(style, bst_encoding)] = list(bst.parse_file(bst_filename, bst_encoding))\n        bst_script = _BST_CACHE[(style, bst_encoding)]\n"),
  'm18_aux_inputs_queued': ('pybtex/auxfile.py', "        self.parse_file(filename, toplevel=False)\n", "        self.__dict__.setdefault('_queued', []).append(filename)\n"),
+ 'm19_parse_files_stops_early': ('pybtex/database/input/__init__.py', "        for filename in base_filenames:\n            self.parse_file(filename, file_suffix)\n", "        for filename in base_filenames:\n            self.parse_file(filename, file_suffix)\n            cited = list(self.data.citations)\n            if cited and '*' not in cited and all(k in self.data.entries for k in cited):\n                break\n"),
  # must NOT alarm: renamed local, reordered independent statements, reworded messages
  'h1_harmless_refactoring': [
    ('pybtex/__init__.py', "        base_filename = path.splitext(aux_filename)[0]\n        bib_filenames = [filename + bib_format.default_suffix for filename in aux_data.data]\n",
